@@ -254,6 +254,7 @@ class Proof:
         """Add an instance of a proven lemma (or a fold-definition instance)."""
         if not isinstance(inst, LemmaInst):
             raise TypeError('use() takes a lemma instance')
+        self.need(inst.lemma)          # a lemma may only be used in a run that also proves it
         self.assumptions.append(inst.formula)
         self.meta.setdefault('lemmas', []).append(inst.lemma.name)
         return self
